@@ -12,6 +12,7 @@ import (
 type assignTarget struct {
 	heap string // heap name
 	ref  string // object / array ref term ("" = whole heap / global)
+	cond string // SMT condition (over the entry state) under which the target may be modified; "" = always
 }
 
 // funcKey returns the contract key of an SSA function: "pkgpath.Name" or "pkgpath.(*T).Name" / "pkgpath.(T).Name".
@@ -235,6 +236,27 @@ func (ex *Exec) assignTargets(fc *FuncContract, env *Env) (targets []assignTarge
 	em := ex.em
 	for _, cl := range fc.Assigns {
 		for _, e := range cl.Exprs {
+			if cc, isCond := e.(*CCond); isCond {
+				// "c ? target : nothing": the target may be modified only when c holds (in the entry state)
+				if id, ok := cc.B.(*CIdent); !ok || id.Name != "nothing" {
+					env.fail("assigns: a conditional target must have the form 'c ? target : nothing'")
+				}
+				sub := &FuncContract{Key: fc.Key, Pkg: fc.Pkg, Assigns: []*Clause{{Kind: "assigns", Exprs: []CExpr{cc.A}}}}
+				ts, subAll, subOK := ex.assignTargets(sub, env)
+				if subAll || !subOK {
+					env.fail("assigns: bad conditional target %s", e)
+				}
+				c := env.evalBool(cc.C)
+				for _, t := range ts {
+					if t.cond != "" {
+						t.cond = and(c, t.cond)
+					} else {
+						t.cond = c
+					}
+					targets = append(targets, t)
+				}
+				continue
+			}
 			switch x := e.(type) {
 			case *CIdent:
 				if x.Name == "nothing" {
@@ -304,8 +326,20 @@ func (ex *Exec) assignTargets(fc *FuncContract, env *Env) (targets []assignTarge
 					env.fail("assigns: bad target %s", e)
 				}
 				if id.Name == "allof" {
-					// allof(T.f): every object's field f — whole heap array, named by type text
-					env.fail("assigns allof() not implemented")
+					// allof(T.f): the field f of every object of type T — the whole field heap
+					sel, ok := x.Args[0].(*CSel)
+					if !ok {
+						env.fail("assigns: allof(T.f)")
+					}
+					t := env.resolveType(sel.X.String())
+					obj, path, _ := lookupField(types.NewPointer(t), env.pkg, sel.Name)
+					if _, ok := obj.(*types.Var); !ok || len(path) != 1 {
+						env.fail("assigns: cannot resolve field %s", e)
+					}
+					hn := fieldHeapName(t, path[0])
+					em.heapSorts()[hn] = "(Array Int " + em.sortOf(t.Underlying().(*types.Struct).Field(path[0]).Type()) + ")"
+					targets = append(targets, assignTarget{heap: hn})
+					continue
 				}
 				v := env.eval(x.Args[0])
 				sl, ok := v.T.Underlying().(*types.Slice)
@@ -416,12 +450,20 @@ func (ex *Exec) applyContract(fc *FuncContract, key string, names []string, args
 			srt := em.heapSorts()[t.heap]
 			cur := em.heapGet(post, t.heap, srt)
 			if t.ref == "" {
-				post.heaps[t.heap] = em.newConst(t.heap, srt)
+				nh := em.newConst(t.heap, srt)
+				if t.cond != "" {
+					nh = em.define(t.heap, srt, ite(t.cond, nh, cur))
+				}
+				post.heaps[t.heap] = nh
 				continue
 			}
 			inner := srt[len("(Array Int ") : len(srt)-1]
 			fv := em.newConst("hv", inner)
-			em.heapSet(post, t.heap, srt, storeT(cur, t.ref, fv))
+			if t.cond != "" {
+				em.heapSet(post, t.heap, srt, ite(t.cond, storeT(cur, t.ref, fv), cur))
+			} else {
+				em.heapSet(post, t.heap, srt, storeT(cur, t.ref, fv))
+			}
 			// type invariant of the new content
 			ex.assumeHeapWF(t.heap, fv, inner)
 		}
@@ -544,10 +586,18 @@ func (ex *Exec) frameGoal(heap, ref string) (string, bool) {
 			continue
 		}
 		if t.ref == "" {
+			if t.cond != "" {
+				alts = append(alts, t.cond)
+				continue
+			}
 			return "", false
 		}
 		if ref != "" {
-			alts = append(alts, fmt.Sprintf("(= %s %s)", ref, t.ref))
+			if t.cond != "" {
+				alts = append(alts, and(t.cond, fmt.Sprintf("(= %s %s)", ref, t.ref)))
+			} else {
+				alts = append(alts, fmt.Sprintf("(= %s %s)", ref, t.ref))
+			}
 		}
 	}
 	return or(alts...), true
@@ -597,6 +647,9 @@ func (ex *Exec) frameCheck(st *State, p *Ptr, pc string, pos token.Pos) {
 
 func (ex *Exec) frameCheckTarget(st *State, t assignTarget, pc string, pos token.Pos, callee string) {
 	if g, ok := ex.frameGoal(t.heap, t.ref); ok {
+		if t.cond != "" {
+			pc = and(pc, t.cond) // the callee touches the target only when its condition holds
+		}
 		ex.obligeLabel("frame", pc, g, pos, "callee "+callee+" assigns "+t.heap)
 	}
 }
